@@ -331,7 +331,7 @@ def j_seg_cont(ln):
         far = max(dist2_pt_seg(a2, a1, b1), dist2_pt_seg(b2, a1, b1)) >= (T5 * B) ** 2
         if far: want = False
         else: return ('skip', 'degenerate-segment')
-        if got != want: return ('fail', 'contains-short-container', 'container of length %s reported to contain a segment %s away' % (g(flen(ab)), g(fsqrt(max(dist2_pt_seg(a2, a1, b1), dist2_pt_seg(b2, a1, b1))))))
+        if got != want: return ('fail', 'far-segment-in-short-container-accepted', 'container of length %s reported to contain a segment %s away' % (g(flen(ab)), g(fsqrt(max(dist2_pt_seg(a2, a1, b1), dist2_pt_seg(b2, a1, b1))))))
         return OK
     (s1, w1), (s2, w2) = pt_on_seg_status(a1, b1, a2), pt_on_seg_status(a1, b1, b2)
     if 'ill' in (s1, s2): return ('skip', 'ill-conditioned')
@@ -397,7 +397,7 @@ def j_seg_ipt(ln):
     gap = flen(vsub(pa, pb))
     scale = pr.M + abs(float(ta)) * pr.la + abs(float(tb)) * pr.lb
     tol = 4 * pr.d + REL() * scale / pr.sin
-    lim = max(tol, float(T5) * B)
+    lim = max(tol, 10 * float(T5))          # generous: ten times the coincidence tolerance
     if gap > lim:
         return ('fail', 'intersection-params-locate-different-points', 'points at the returned parameters are %s apart (lines %s apart)' % (g(gap), g(pr.d)))
     ea, eb = abs(float(ta - pr.ta)) * pr.la * pr.sin, abs(float(tb - pr.tb)) * pr.lb * pr.sin
@@ -460,7 +460,7 @@ def j_seg_int(ln):
             if not sane(ptoks): return ('fail', 'crossing-point-not-finite', nm + ' point not finite')
             e = flen(vsub(P(ptoks, 0), pr.X))
             tol = 2 * pr.u + REL() * (pr.M + pr.la) / pr.sin
-            if e > max(tol, float(T5) * B): return ('fail', 'crossing-point-wrong', '%s point is %s from the exact crossing point (%s)' % (nm, g(e), where))
+            if e > max(tol, 10 * float(T5)): return ('fail', 'crossing-point-wrong', '%s point is %s from the exact crossing point (%s)' % (nm, g(e), where))
     if want_i is None and want_t is None: return BAND
     return OK
 
@@ -670,12 +670,13 @@ def j_tri_mt(ln):
         alls = (su, sv, sw, stt)
         if 'out' in alls: want = 'none'
         elif all(x == 'in' for x in alls): want = 'some'
+        elif R[0] == 'some': want = 'edge'                        # on the boundary: hit or miss are both fine, a reported hit must be right
         else: return BAND
     if want == 'none':
         if R[0] != 'none':
             return ('fail', 'ray-triangle-false-hit', 'no hit expected (det = %s%s) but %s' % (g(det), '' if ad <= tiny else ', u = %s, v = %s, t = %s' % (g(u), g(vv), g(t)), ' '.join(R[:1])))
         return OK
-    if R[0] != 'some': return ('fail', 'ray-triangle-missed', 'hit expected at u = %s, v = %s, t = %s' % (g(u), g(vv), g(t)))
+    if want != 'edge' and R[0] != 'some': return ('fail', 'ray-triangle-missed', 'hit expected at u = %s, v = %s, t = %s' % (g(u), g(vv), g(t)))
     if not sane(R[1:6]): return ('fail', 'ray-triangle-non-finite', 'non-finite hit')
     X = vadd(o, vscale(d, t))
     e = flen(vsub(P(R, 1), X))
